@@ -36,10 +36,12 @@ def run(ctx):
     strmodel.report(ctx, "C05/LINE-MODEL", strmodel.explore_lines, strmodel.LINE_LAWS,
                     parts.loc(), 300)
     strmodel.report(ctx, "C05/PARAM-MODEL", strmodel.explore_params_extended,
-                    ["line round trip", "no injection", "round trip", "reader rejects"],
+                    ["line round trip", "no injection", "round trip", "history", "reader rejects"],
                     m.own_method("parser.Parameters.from_ical").loc(), 300,
                     select=lambda law: law in ("line round trip", "no injection", "round trip",
-                                               "reader rejects"))
+                                               "history", "reader rejects"))
+    strmodel.report(ctx, "C05/WIRE-MODEL", strmodel.explore_wire, ["no injection"], parts.loc(), 300,
+                    select=lambda law: law == "no injection")
     _classes(ctx)
     from .c06 import unfold_rule
     unfold_rule(ctx, "C05/UNFOLD-EXACT")
